@@ -2,9 +2,32 @@
 from m4check import run_property
 
 
+def D(name, hosts, targets, prefixes=()):
+    return {"op": "deploy", "name": name, "hosts": hosts, "prefixes": list(prefixes), "tls": False, "tls_redirect": False, "strip": True,
+            "cert": "none", "pages": "none", "topts": 0, "targets": [{"name": t, "healthy": ok} for t, ok in targets]}
+
+
+def directed():
+    """failing commands whose clean-up must not touch what is live: a host conflict on the redeploy of a service that HAS rollout
+    targets (their probing must go on); failing deploys / rollout deploys that name one target twice (nothing may keep probing
+    it); a failing rollout deploy beside live active targets"""
+    h, g = b"a.example.com", b"b.example.com"
+    rd = lambda name, targets: {"op": "rollout_deploy", "name": name, "targets": [{"name": t, "healthy": ok} for t, ok in targets]}
+    return [
+        [D(b"web", [h], [(b"ta:80", True), (b"tb:80", True)]), rd(b"web", [(b"tc:8080", True)]), D(b"api", [g], [(b"td:80", True)]),
+         D(b"web", [g], [(b"te:80", True)]), {"op": "rollout_set", "name": b"web", "pct": 100, "allow": []},
+         D(b"web", [h, g], [(b"tf_1:80", True)]), rd(b"web", [(b"tg:80", True)])],
+        [D(b"web", [h], [(b"ta:80", True)]), D(b"api", [g], [(b"tx_1:80", False), (b"tx_1:80", False)]),
+         D(b"web", [h], [(b"ty_1:80", False), (b"tb:80", True), (b"ty_1:80", False)]),
+         rd(b"web", [(b"tz_1:80", False), (b"tz_1:80", False)]), D(b"api", [g], [(b"tc:80", True), (b"tc:80", True)])],
+        [D(b"web", [h], [(b"ta:80", True)]), rd(b"web", [(b"tb:80", True), (b"tc_1:80", False)]), rd(b"web", [(b"tb:80", True)]),
+         D(b"api", [h], [(b"td:80", True)]), rd(b"web", [(b"te_1:80", False)])],
+    ]
+
+
 def run(tier, seed):
     return run_property(
         "C06", tier, seed, ["C06.v", "M4link.v"], ["props/C06.vo", "props/M4link.vo"],
         profile={"deploy": 6, "deploy_fail": 9, "redeploy_same_fail": 5, "remove": 2, "restart": 1, "rollout_deploy": 3, "rollout_set": 3,
                  "rollout_stop": 1, "pause": 2, "stop": 2, "resume": 2},
-        monitor="c06_ok None h", n_quick=40, n_thorough=600)
+        monitor="c06_ok None h", n_quick=40, n_thorough=600, fixed=directed())
